@@ -18,7 +18,7 @@ from .tlaparse import find_prints
 
 PATHS = ['to_string', 'mysql', 'postgresql', 'sqlite', 'mssql', 'oracle']
 STYLE = {'to_string': 'lib_sq', 'mysql': 'mysql', 'postgresql': 'std', 'sqlite': 'std', 'mssql': 'std', 'oracle': 'std'}
-POSITIONS = ['select', 'where', 'inlist', 'insert', 'update', 'neg', 'sub']
+POSITIONS = ['select', 'where', 'inlist', 'insert', 'update', 'neg', 'sub', 'inlist-long', 'setop-subselect', 'insert-from-setop']
 BENIGN = 'zqz'
 TYPED = [0, 7, -3, 12345678901234567890, 1.5, -0.25, 1e-7, True, False, None,
          dt.date(2020, 2, 29), dt.datetime(2011, 1, 1, 10, 20, 30), dt.datetime(2011, 1, 1, 10, 20, 30, 123456)]
@@ -30,7 +30,7 @@ def s_of(codes):
 
 def build(pos, value):
     from mindsdb_sql.parser.ast import (Constant, NullConstant, Identifier, Select, BinaryOperation, Tuple, Insert,
-                                        Update, UnaryOperation)
+                                        Update, UnaryOperation, Union, Star)
     c = NullConstant() if value is None else Constant(value)
     if pos == 'select':
         c.alias = Identifier('c1')      # otherwise the renderer derives the column label from the value
@@ -46,6 +46,20 @@ def build(pos, value):
     if pos == 'update':
         return Update(table=Identifier('t'), update_columns={'c': c},
                       where=BinaryOperation('=', args=[Identifier('d'), Constant(1)]))
+    # a long list of constants (renderers like to special-case them); a constant inside a set operation used as a sub-select
+    if pos == 'inlist-long':
+        items = [Constant(i) for i in range(30)] + [c] + [Constant('v%d' % i) for i in range(30)]
+        return Select(targets=[Identifier('a')], from_table=Identifier('t'),
+                      where=BinaryOperation('in', args=[Identifier('c'), Tuple(items=items)]))
+    if pos in ('setop-subselect', 'insert-from-setop'):
+        c.alias = Identifier('c1')
+        u = Union(left=Select(targets=[c]), right=Select(targets=[Constant(1, alias=Identifier('c1'))]), unique=False)
+        u.alias = Identifier('u')
+        u.parentheses = True
+        sel = Select(targets=[Star()], from_table=u)
+        if pos == 'setop-subselect':
+            return sel
+        return Insert(table=Identifier('t'), columns=[Identifier('c')], from_select=sel)
     # a constant next to an operator sign: the literal must not fuse with it into another token (--, /*, */)
     if pos == 'neg':
         return Select(targets=[Identifier('a')], from_table=Identifier('t'),
